@@ -94,12 +94,14 @@ Print Assumptions C10_no_fabrication.
    error = that of the last attempt or the client-made "no replica / region gone" pseudo error; an ERROR only if the read
    timestamp failed validation (nothing sent) or a back-off was refused because the budget is spent: the non-excluded sleep
    (total - tikvServerBusy sleep) has reached maxSleep, or the excluded tikvServerBusy sleep has reached both its 600 000 ms
-   cap and maxSleep.  (Context cancellation / kill are not modelled.) *)
+   cap and maxSleep; or the caller cancelled the context / set the kill flag ([c_cancel], [c_kill]: before the call, while an
+   attempt is in flight, during a back-off sleep). *)
 Theorem C10_error_only_when_spent : forall c script rands sleeps evs,
   run c script rands sleeps = (evs, RError) ->
   (c_read c = true /\ c_val c = false /\ c_store_tp c <> TpTiDB) \/
   ((0 < c_max_sleep c)%N /\
-   ((c_max_sleep c <= tot evs - exc evs)%N \/ ((excl_limit <= exc evs)%N /\ (c_max_sleep c <= exc evs)%N))).
+   ((c_max_sleep c <= tot evs - exc evs)%N \/ ((excl_limit <= exc evs)%N /\ (c_max_sleep c <= exc evs)%N))) \/
+  c_cancel c <> TNever \/ c_kill c <> TNever.
 Proof. intros c script rands sleeps evs H. exact (run_error true c script rands sleeps evs H). Qed.
 Print Assumptions C10_error_only_when_spent.
 
@@ -116,7 +118,7 @@ Print Assumptions C10_backoffs_bounded.
 
 (* --- non-vacuity --------------------------------------------------------------------------------------------- *)
 Definition c_stale_read : cfg := mkCfg RTMixed true true false false false false 100000%N true
-  [fresh_rep Reachable false false false; fresh_rep Reachable false false false; fresh_rep Reachable false false false] false TpTiKV.
+  [fresh_rep Reachable false false false; fresh_rep Reachable false false false; fresh_rep Reachable false false false] false TpTiKV TNever TNever true false.
 (* stale read: DataIsNotReady on the first replica, ServerIsBusy on the leader, RPC error on the last replica *)
 Example ex_stale_read :
   run c_stale_read [ODataIsNotReady; OBusy false; ORpcErr Reachable] [0; 0] [55; 1057]%N =
@@ -126,9 +128,9 @@ Proof. vm_compute. reflexivity. Qed.
 Example ex_no_rearm : n_rearms (fst (run c0 (repeat (ORpcErr Reachable) 40) [] [])) = 0 /\
   n_attempts (fst (run c0 (repeat (ORpcErr Reachable) 40) [] [])) = 12.
 Proof. vm_compute. auto. Qed.
-Example ex_budget : snd (run (mkCfg RTLeader false true false false false false 120%N true (c_reps c0) false TpTiKV) (repeat (ORpcErr Reachable) 40) [] [73; 105]%N) = RError.
+Example ex_budget : snd (run (mkCfg RTLeader false true false false false false 120%N true (c_reps c0) false TpTiKV TNever TNever true false) (repeat (ORpcErr Reachable) 40) [] [73; 105]%N) = RError.
 Proof. vm_compute. reflexivity. Qed.
-Example ex_write : fst (run (mkCfg RTFollower false false false false false false 100000%N true (c_reps c0) false TpTiKV) [OStaleCommand] [1] []) =
+Example ex_write : fst (run (mkCfg RTFollower false false false false false false 100000%N true (c_reps c0) false TpTiKV TNever TNever true false) [OStaleCommand] [1] []) =
   [EAtt 2 false false false; EAtt 1 false false true].
 Proof. vm_compute. reflexivity. Qed.
 (* regression for F10: the lasso now terminates — 4 re-arms (2 per ping-pong replica), then no replica is left *)
@@ -138,16 +140,33 @@ Proof. vm_compute. auto. Qed.
 
 (* forwarding: leader store unreachable from the client, the request goes through replica 1 (ForwardedHost = leader) *)
 Definition c_fwd : cfg := mkCfg RTLeader false true false false false false 100000%N true
-  [fresh_rep Unreachable false false false; fresh_rep Reachable false false false; fresh_rep Reachable false false false] true TpTiKV.
+  [fresh_rep Unreachable false false false; fresh_rep Reachable false false false; fresh_rep Reachable false false false] true TpTiKV TNever TNever true false.
 Example ex_forward : run c_fwd [] [] [] = ([EProxy 1; EAtt 0 false false false], RSuccess 0).
 Proof. vm_compute. reflexivity. Qed.
 (* budget of 120 ms: the third RPC back-off is refused *)
-Example ex_spent : let r := run (mkCfg RTLeader false true false false false false 120%N true (c_reps c0) false TpTiKV) (repeat (ORpcErr Reachable) 40) [] [73; 105]%N in
+Example ex_spent : let r := run (mkCfg RTLeader false true false false false false 120%N true (c_reps c0) false TpTiKV TNever TNever true false) (repeat (ORpcErr Reachable) 40) [] [73; 105]%N in
   snd r = RError /\ tot (fst r) = 178%N /\ n_plain (fst r) = 2%N.
 Proof. vm_compute. auto. Qed.
 
 (* validation gate: a TiFlash-served read with a failing timestamp is refused, a TiDB-served one is exempt by design *)
 Example ex_validate_tp :
-  run (mkCfg RTLeader false true false false false false 100000%N false (c_reps c0) false TpTiFlash) [] [] [] = ([], RError) /\
-  snd (run (mkCfg RTLeader false true false false false false 100000%N false (c_reps c0) false TpTiDB) [] [] []) = RSuccess 0.
+  run (mkCfg RTLeader false true false false false false 100000%N false (c_reps c0) false TpTiFlash TNever TNever true false) [] [] [] = ([], RError) /\
+  snd (run (mkCfg RTLeader false true false false false false 100000%N false (c_reps c0) false TpTiDB TNever TNever true false) [] [] []) = RSuccess 0.
+Proof. vm_compute. auto. Qed.
+
+(* caller cancellation and kill: the call ends with an error, at most one more attempt reaches a client after the cancellation
+   (it is answered with the context error), none after an interruptible request saw the kill flag; never a fabricated success *)
+Definition c_cancelled (t : trigger) : cfg := mkCfg RTLeader false true false false false false 100000%N true (c_reps c0) false TpTiKV t TNever true false.
+Definition c_killed (t : trigger) (ir : bool) : cfg := mkCfg RTLeader false true false false false false 100000%N true (c_reps c0) false TpTiKV TNever t ir false.
+Example ex_cancel :
+  run (c_cancelled TPre) [] [] [] = ([EAtt 0 false false false], RError) /\
+  run (c_cancelled (TAtt 0)) [ONotLeaderHint 1; OSuccess] [] [] = ([EAtt 0 false false false; EAtt 1 false false true], RError) /\
+  run (c_cancelled (TAtt 0)) [] [] [] = ([EAtt 0 false false false], RSuccess 0) /\
+  run (c_cancelled (TBo 0)) (repeat (ORpcErr Reachable) 5) [] [51]%N = ([EAtt 0 false false false; EBo BoRPC 51; EAtt 0 false false true], RError).
+Proof. vm_compute. auto. Qed.
+Example ex_kill :
+  run (c_killed TPre true) [] [] [] = ([], RError) /\
+  run (c_killed (TAtt 0) true) (repeat (ORpcErr Reachable) 5) [] [] = ([EAtt 0 false false false], RError) /\
+  run (c_killed (TAtt 0) false) (repeat (ORpcErr Reachable) 5) [] [52]%N = ([EAtt 0 false false false; EBo BoRPC 52], RError) /\
+  run (c_killed (TBo 0) true) (repeat (ORpcErr Reachable) 5) [] [98]%N = ([EAtt 0 false false false; EBo BoRPC 98], RError).
 Proof. vm_compute. auto. Qed.
